@@ -169,6 +169,8 @@ def run(chk):
         else:
             chk.ob("R-PK-SHIFT", c + "{scatter}", "one np.put into the full-length series", False, derived="%d" % len(puts), loc=r.fi.loc())
         expect(chk, "R-PK-SHIFT", c + ".result", r.ret, length="n", deg={R: 1}, kind=K_ARRAY, loc=r.fi.loc())
+    from ..tyob import plateau_cleaner_exact
+    plateau_cleaner_exact(chk, "R-PK-SHIFT")
     chk.floor("R-PL-DEG", 9)
     chk.floor("R-PL-INV", 6)
     chk.floor("R-PL-LEN", 14)
